@@ -39,3 +39,42 @@
         for f in failures.iter().take(5) { println!("FAILING INPUT: {}", f); }
         assert!(failures.is_empty());
     }
+
+    /// the definition-file reader (read_character_definition: str parsing, not within the verifier's reach) followed by compile:
+    /// every small definition text is read and compared, code point by code point, with the union of the lines covering it.
+    /// BOUNDED: texts of up to 3 lines drawn from ranges inside 0x30..0x37 with class sets {NUMERIC, ALPHA, NUMERIC ALPHA}.
+    #[test]
+    fn verif_oracle_definition_text() {
+        let names = ["NUMERIC", "ALPHA", "NUMERIC ALPHA"];
+        let sets = [CategoryType::NUMERIC, CategoryType::ALPHA, CategoryType::NUMERIC | CategoryType::ALPHA];
+        let mut lines: Vec<(String, u32, u32, CategoryType)> = Vec::new();
+        for b in 0x30u32..0x36 { for e in b..0x37 { for (k, n) in names.iter().enumerate() {
+            let text = if b == e { format!("0x{:04X} {}", b, n) } else { format!("0x{:04X}..0x{:04X} {} # comment", b, e, n) };
+            lines.push((text, b, e + 1, sets[k]));
+        }}}
+        let mut failures: Vec<String> = Vec::new();
+        let mut cases = 0usize;
+        let n = lines.len();
+        let mut check = |sel: &[usize], failures: &mut Vec<String>| {
+            cases += 1;
+            let text: String = sel.iter().map(|i| format!("{}\n", lines[*i].0)).collect();
+            let text = format!("# header\n\n{}", text);
+            let cc = match CharacterCategory::from_reader(text.as_bytes()) { Ok(c) => c, Err(e) => { failures.push(format!("definition {:?} refused: {:?}", text, e)); return; } };
+            for c in 0x2Eu32..0x3A {
+                let mut want = CategoryType::empty();
+                for i in sel { let l = &lines[*i]; if l.1 <= c && c < l.2 { want |= l.3; } }
+                if want.is_empty() { want = CategoryType::DEFAULT; }
+                let got = cc.get_category_types(char::from_u32(c).unwrap());
+                if got != want { if failures.len() < 20 { failures.push(format!("definition {:?}: U+{:04X} has classes {:?}, the lines covering it give {:?}", text, c, got, want)); } return; }
+            }
+        };
+        for a in 0..n { check(&[a], &mut failures); for b in 0..n { check(&[a, b], &mut failures); } }
+        let seed: usize = std::env::var("VERIF_SEED").ok().and_then(|s| s.parse().ok()).unwrap_or(0);
+        for i in 0..3000usize {
+            let x = (i.wrapping_mul(2654435761).wrapping_add(seed.wrapping_mul(40503))) % (n * n * n);
+            check(&[x % n, (x / n) % n, x / (n * n)], &mut failures);
+        }
+        println!("verif_oracle_definition_text: {} cases, {} failures", cases, failures.len());
+        for f in failures.iter().take(5) { println!("FAILING INPUT: {}", f); }
+        assert!(failures.is_empty());
+    }
